@@ -94,6 +94,9 @@ func c17LevelOf(def *ph.Def, path string) *c17Level {
 	if cd.ArgFn {
 		lv.argFn = cd.Name
 	}
+	if cd.ArgFnSlow {
+		lv.argCompl = append(append([]string{}, lv.argCompl...), "slow-"+cd.Name+"-1") // whatever its dynamic functions return, however long they take
+	}
 	return lv
 }
 
@@ -427,7 +430,7 @@ func init() {
 		QuickSecs: 300, ThoroSecs: 1500,
 		Rule: "input-space exploration of the completion path, in-process (exit function and completion writer replaced through an overlay-only file): 5 trees (aliases, suggested and valid values, value completion function, static and dynamic argument completions, UnsetOptions wrapper, nested commands, with and without help command, lonesome dash, all three modes) x every sequence of earlier words of length <= Le over long options with values, command names and a positional " +
 			"x last word in {every prefix of every option name/alias and command/suggestion of the level reached, `-`, `--`, empty, `--k=`, `--k=<prefix>`, non-matching} x bash/zsh x three argument conventions of Parse, and (bash) the same line with its words separated by two blanks or by a tab; offered option names / commands / values compared as sets with the set computed from the definition and the reference model's level, " +
-			"sortedness, parser acceptance of every offered option and command, no CommandFn, exit path (also when the stream the candidates are written to fails); distinct_nontrivial = distinct in-domain (definition, COMP_LINE, target, convention) cases",
+			"sortedness, parser acceptance of every offered option and command, no CommandFn, exit path (also when the stream the candidates are written to fails); three cases with a dynamic completion function that takes 1.5 s to answer; distinct_nontrivial = distinct in-domain (definition, COMP_LINE, target, convention) cases",
 		Assume: []string{"zone U12 (last word in the value position of the previous option, after `--`, after words that do not parse) is executed but not compared", "require-order is not combined with completion"},
 		Run: func(c *RunCtx) {
 			res := c.Res
@@ -441,7 +444,22 @@ func init() {
 			units := len(defs) * (len(earlyAlpha) + 1)
 			for {
 				u := c.claim()
-				if u >= units || len(res.Violations) >= 3 {
+				if u == units {
+					// a dynamic completion function that answers slowly still contributes (four cases, 1.5 s each)
+					slow := &ph.Def{Help: "help", Root: ph.CmdDef{Name: "prog", Opts: []ph.OptDef{{Name: "verbose", Kind: ph.Bool}},
+						ArgCompl: []string{"local-a"}, ArgFn: true, ArgFnSlow: true, Cmds: []*ph.CmdDef{{Name: "run", ArgFnSlow: true}}}}
+					for _, cc := range []*c17Case{{Def: slow, Last: ""}, {Def: slow, Last: "s", Zsh: true}, {Def: slow, Earlier: []string{"run"}, Last: ""}} {
+						res.Evaluations++
+						res.Traces++
+						res.count("cases_with_a_slow_completion_function", 1)
+						if msgs, _ := c17Judge(cc, false); len(msgs) > 0 {
+							raw, _ := json.Marshal(cc)
+							res.violate(Violation{Prop: "C17", Msg: fmt.Sprintf("%s  [slow completion function; %s]", msgs[0], cc), Case: raw, Weight: 5})
+						}
+					}
+					continue
+				}
+				if u > units || len(res.Violations) >= 3 {
 					break
 				}
 				if c.expired() {
